@@ -88,8 +88,15 @@ pub struct BaseHeaders {
 
 impl BaseHeaders {
     fn extract_from(headers: &Headers) -> Result<Self, HeaderError> {
+        let via: Vec<Via> = headers.get_named()?;
+
+        // Via headers which cannot be parsed are skipped, at least one valid is required
+        if via.is_empty() {
+            return Err(HeaderError::malformed_adhoc(Name::VIA, "no valid Via header"));
+        }
+
         Ok(BaseHeaders {
-            via: headers.get_named()?,
+            via,
             from: headers.get(Name::FROM)?,
             to: headers.get(Name::TO)?,
             call_id: headers.get_named()?,
